@@ -16,6 +16,10 @@ class FakeFuture:
     def __repr__(self):
         return 'Fut(%d)' % self.key
 
+    def __dask_tokenize__(self):
+        # like distributed.Future: a future is identified by its key
+        return ('Future', self.key)
+
     def _finish(self, result=None, exc=None):
         self.done = True
         self.result = result
@@ -58,6 +62,7 @@ class FakeClient:
         self.spec = spec or {}
         self.nkeys = 0
         self.ntasks = 0
+        self._by_key = {}
         self.nscatter = 0
         self.ngather = 0
         self.asynchronous = True
@@ -89,8 +94,18 @@ class FakeClient:
         for f in pend:
             f.waiters.append(one)
 
-    def submit(self, func, *args, **kwargs):
+    def submit(self, func, *args, key=None, pure=None, workers=None, resources=None, retries=None, priority=0,
+               fifo_timeout=None, allow_other_workers=False, actor=False, actors=False, **kwargs):
+        # (the keywords distributed.Client.submit consumes itself are not passed on to the function)
+        if key is not None:
+            # one task per key: a second submission under a key that is still alive gets the existing future
+            known = self._by_key.get(key)
+            if known is not None:
+                self.rec.rec('task_reused', known.key)
+                return known
         fut = self._new()
+        if key is not None:
+            self._by_key[key] = fut
         k = self.ntasks
         self.ntasks += 1
         lat = self._lat('task_lat', k)
